@@ -28,7 +28,7 @@ REACH_PROBES = ['long_child_after_timeout_none', 'op_set', 'op_unset', 'op_timeo
                 'fault_between_ops', 'cleanup_after_fault_sees_state', 'slow_below', 'slow_above_killed',
                 'ops_in_cleanup', 'ops_in_assert', 'atc_observed', 'stub_view_observed', 'cd_relative',
                 'atc_by_command_line_actor', 'process_with_empty_environment', 'atc_by_file_actor', 'atc_by_source_actor',
-                'cd_fails', 'cleanup_after_failing_cd_observes_cwd']
+                'cd_fails', 'cleanup_after_failing_cd_observes_cwd', 'op_copy_into_current_directory']
 
 NAMES = ['V1', 'V2', 'V3', 'SIMBASE_A']
 PHASES = ['setup', 'before-assert', 'assert', 'cleanup']
@@ -71,7 +71,7 @@ def gen_ops(g, procs):
                 fx = ['unset', purge_spec, name]
                 model.apply(fx, ph)
                 ops.append((ph, fx))
-        k = g.choice(['set', 'set', 'set', 'unset', 'timeout', 'cd'])
+        k = g.choice(['set', 'set', 'set', 'unset', 'timeout', 'cd', 'copy'])
         if k == 'set':
             spec = g.choice([None, 'act', '!act'])
             name = g.choice(NAMES)
@@ -91,6 +91,8 @@ def gen_ops(g, procs):
             fx = ['unset', g.choice([None, 'act', '!act']), g.choice(NAMES)]
         elif k == 'timeout':
             fx = ['timeout', g.choice([None, 1, 2, 5, 77, 600])]
+        elif k == 'copy':
+            fx = ['copy', 'cp-%d.txt' % i]  # (`copy SOURCE`: a file of the home directory, into the current directory)
         else:
             syn, target = g.choice(_cd_options(model.cwd, ph))
             fx = ['cd', target, syn]
@@ -120,7 +122,7 @@ def make_plan(i, master, tier):
     def probe(ph):
         n[0] += 1
         ident = 'p%d' % n[0]
-        procs[ident] = {'exit': 0}
+        procs[ident] = {'exit': 0, 'observe': ['cwd_ls']}
         # every probe is handed a path symbol whose relativity is the current directory (the default): the path it
         # denotes is the one under the directory that is current at THAT use
         return {'k': 'probe', 'id': ident, 'form': g.choice(['%', '%', 'run', '$']), 'args': '@[HERE]@'}
@@ -223,6 +225,8 @@ def execute(plan, scratch):
     w = world_mod.World(os.path.join(scratch, 'w'))
     text = casegen.write_case(w, plan['case'], plan['status'])
     w.write('home/src.py', 'print(1)\n')
+    for i in range(16):
+        w.write('home/cp-%d.txt' % i, 'to be copied\n')
     sim = kernel.Sim(plan, w)
     with patches.installed(sim):
         res = host.run_cli(sim, (['--keep'] if plan.get('keep') else []) + ['t.case'])
@@ -256,6 +260,8 @@ def summarize(plan, sim, w, res, text, leftover, digest):
     for s in sim.spawns:
         events.append({'seq': s['seq'], 'kind': 'spawn', 'id': s['tag'], 'cwd': rel(s['cwd']), 'env': dict(s['env']),
                        'arg': second_word(s['args']),
+                       'ls': [n for n in (s['obs'].get('cwd_ls') or []) if isinstance(n, str) and n.startswith('cp-')]
+                       if isinstance(s['obs'].get('cwd_ls'), list) else None,
                        'waits': list(s['waits']), 'killed': s['killed'], 'exit': s['exit'],
                        'error': s.get('spawn_error'), 't_spawn': s['t_spawn'], 't_kill': s.get('t_kill'),
                        't_end': s.get('t_end'), 'reaped': s['reaped'], 'n': s['n']})
@@ -347,6 +353,9 @@ def oracle(plan, hist):
             if ident.startswith('p') and e.get('arg') is not None and e['arg'] != x['cwd'] + '/marker.txt':
                 bad('cwd.path_relative_to_the_current_directory_follows_cd', {'id': ident, 'path': x['cwd'] + '/marker.txt'},
                     e['arg'])
+            if ident.startswith('p') and e.get('ls') is not None and e['ls'] != x.get('here', []):
+                bad('cwd.copy_without_destination_puts_the_file_in_the_current_directory',
+                    {'id': ident, 'cwd': x['cwd'], 'files': x.get('here', [])}, e['ls'])
             if e['env'] != x['env']:
                 rule = 'environ.atc_sees_act_set' if ident == 'atc' else 'environ.other_processes_see_non_act_set'
                 bad(rule, {'id': ident, 'env': _d(x['env'])}, _d(e['env']))
@@ -431,6 +440,8 @@ def _probes(plan, hist):
             pr['timeout_none'] = 1
         if fx[0] == 'cd' and fx[1].startswith('./'):
             pr['cd_relative'] = 1
+        if fx[0] == 'copy':
+            pr['op_copy_into_current_directory'] = 1
         if ph == 'cleanup':
             pr['ops_in_cleanup'] = 1
         if ph == 'assert':
